@@ -261,7 +261,7 @@ pub fn isolated(mem_bytes: u64, cpu_secs: u64, f: impl FnOnce() -> Vec<u8>) -> R
         let mut status = 0i32;
         libc::waitpid(pid, &mut status, 0);
         if libc::WIFSIGNALED(status) {
-            return Err(format!("killed by signal {} (memory or CPU limit)", libc::WTERMSIG(status)));
+            return Err(format!("killed by signal {}{}", libc::WTERMSIG(status), match libc::WTERMSIG(status) { 24 => " (CPU time limit: a runaway loop)", 9 => " (memory limit or killed)", 6 => " (abort)", 11 => " (segmentation fault)", _ => "" }));
         }
         if out.is_empty() {
             return Err(format!("child exited with status {} and no result", libc::WEXITSTATUS(status)));
